@@ -195,14 +195,22 @@ func (t *throttler) Call() {
 		} else if t.trailing && !t.pending {
 			// Keep the trigger, but grant it only at the trailing edge of the period.
 			t.pending = true
-			time.AfterFunc(t.duration-delta, func() {
+			var grant func()
+			grant = func() {
 				t.cond.L.Lock()
 				defer t.cond.L.Unlock()
 
+				// The timer may run late: if a permission was consumed in the meantime,
+				// the period starts over and the kept trigger waits for its end.
+				if rest := t.duration - time.Since(t.last); rest > 0 && !t.stop {
+					time.AfterFunc(rest, grant)
+					return
+				}
 				t.pending = false
 				t.waiting = true
 				t.cond.Broadcast()
-			})
+			}
+			time.AfterFunc(t.duration-delta, grant)
 		}
 	}
 }
